@@ -103,6 +103,15 @@ contract(T + ".ingest_error", "C13", params={"error": "any", "context": "opt:dic
          ensures={"ingested-once": "calls_to('.ingest') == 1"})
 
 
+# ---- the recycling bin's own entry points: clearing empties the bin and touches neither the queue nor the accounting; reading is pure
+contract(T + ".clear_recycling_bin", "C13", raises=[], modifies=["self._recycling_bin"],
+         ensures={"bin-emptied": "len(self._recycling_bin) == 0",
+                  "queue-and-accounting-untouched": "len(self._queue) == len(old(self)._queue) and self._total_ingested == old(self)._total_ingested "
+                                                    "and self._total_digested == old(self)._total_digested and self._total_recycled == old(self)._total_recycled"})
+contract(T + ".get_recycled", "C13", params={"key": "opt:str"}, raises=[], modifies=[],
+         ensures={"reading-changes-nothing": "len(self._recycling_bin) == len(old(self)._recycling_bin) and len(self._queue) == len(old(self)._queue)"})
+
+
 def native_replay(rep):
     """queues are symbolic object lists: witnesses (hangs, unlocked writes, bound/accounting breaks) are searched for with
     small configurations and operation sequences on the real Lysosome under a watchdog"""
